@@ -15,3 +15,7 @@ MUTANTS = [
     dict(name="json-selected-by-first-character", file="core/spec_fetcher.py", expect="R19.4",
          old='    if "json" in content_type.lower():', new='    if "json" in content_type.lower() or content.lstrip().startswith("{"):'),
 ]
+MUTANTS.append(dict(name="responses-iterated-in-sorted-raw-key-order", file='core/loader/operations/parser.py', expect="R19.1", old='for sc, rn_node in cast(Mapping[str, Any], node_op.get("responses", {})).items():',
+    new='for sc, rn_node in sorted(cast(Mapping[str, Any], node_op.get("responses", {})).items()):'))
+MUTANTS.append(dict(name="nullable-flag-not-reset-per-property", file='core/parsing/schema_parser.py', expect="R19.6", old='                if should_create_reference:\n                    prop_is_nullable = False\n', new='                if should_create_reference:\n',
+    also=("    parsed_props: dict[str, IRSchema] = existing_properties.copy()\n", "    parsed_props: dict[str, IRSchema] = existing_properties.copy()\n    prop_is_nullable = False\n")))
